@@ -664,8 +664,10 @@ func c10Ranges(v reflect.Value, rec int, path string, out *[]c10Range) {
 		if v.IsNil() {
 			return
 		}
-		if n := uintptr(v.Len()) * v.Type().Elem().Size(); n > 0 {
-			*out = append(*out, c10Range{v.Pointer(), v.Pointer() + n, rec, path + " slice"})
+		// the whole capacity: an append within it writes there without reallocating, so
+		// spare capacity that covers somebody else's data is an overlap too
+		if n := uintptr(v.Cap()) * v.Type().Elem().Size(); n > 0 {
+			*out = append(*out, c10Range{v.Pointer(), v.Pointer() + n, rec, path + " slice (to its capacity)"})
 		}
 		fallthrough
 	case reflect.Array:
